@@ -11,7 +11,8 @@
    (a) geo_tree : the walk tree induced by a grid, a meta size, a level list and a coverage predicate
        cov : bbox -> Z  (0 = NONE, 1 = INTERSECTS, -1 = CONTAINS, as in seeder.py).
    A place where the Python raises (GridError 'Invalid BBOX' out of _tile_iter, level out of range) is the
-   node WErr; the trace of the implementation is the model trace cut after the first EErr.
+   node WErr; the trace of the implementation is the model trace cut after the first EErr.  For well-formed grids
+   and valid sorted level lists geo_tree contains no WErr (Seed_proofs.geo_tree_err_free).
    No proofs here. *)
 From Coq Require Import ZArith List Bool.
 Import ListNotations.
@@ -197,12 +198,30 @@ Inductive maff :=
 | MAff (nx ny : Z) (tiles : list (option coord))
 | MInvalid.
 
-(* MetaGrid.get_affected_level_tiles + MetaGrid._tile_iter (the affected bbox is not used by the walker) *)
+(* TileGrid.tile for the point (px2 / 2, py2 / 2), exact for every integer px2, py2 (the midpoint of a thin rectangle
+   has half-integer coordinates); tile2 g (2 * px) (2 * py) l = tile g px py l *)
+Definition tile2 (g : grid) (px2 py2 l : Z) : Z * Z :=
+  let r := res_at g l in
+  let x := px2 - 2 * gx0 g in
+  let y := if ul g then 2 * gy1 g - py2 else py2 - 2 * gy0 g in
+  (x / (2 * (r * tw g)), y / (2 * (r * th g))).
+
+(* MetaGrid.get_affected_level_tiles + MetaGrid._tile_iter (the affected bbox is not used by the walker).
+   Both corners are moved inwards by 1/10 pixel; when that inverts an axis (rectangle thinner than 2/10 pixel) the
+   centre line of the rectangle is used for both corners of that axis (repair of finding C11-sliver).
+   MInvalid = _tile_iter raises IndexError -> GridError('Invalid BBOX'); unreachable for well-formed grids
+   (Seed_proofs.meta_affected_valid). *)
 Definition meta_affected (g : grid) (msx msy : Z) (b : bbox) (l : Z) : maff :=
   let '(bx0, by0, bx1, by1) := b in
   let delta := res_at g l / 10 in
-  let '(tx0, ty0) := tile g (bx0 + delta) (by0 + delta) l in
-  let '(tx1, ty1) := tile g (bx1 - delta) (by1 - delta) l in
+  let inv_x := bx1 - delta <? bx0 + delta in
+  let inv_y := by1 - delta <? by0 + delta in
+  let minx2 := if inv_x then bx0 + bx1 else 2 * (bx0 + delta) in
+  let maxx2 := if inv_x then bx0 + bx1 else 2 * (bx1 - delta) in
+  let miny2 := if inv_y then by0 + by1 else 2 * (by0 + delta) in
+  let maxy2 := if inv_y then by0 + by1 else 2 * (by1 - delta) in
+  let '(tx0, ty0) := tile2 g minx2 miny2 l in
+  let '(tx1, ty1) := tile2 g maxx2 maxy2 l in
   let '(sx, sy) := meta_size g msx msy l in
   let x0 := tx0 / sx * sx in
   let x1 := tx1 / sx * sx in
